@@ -16,6 +16,9 @@ CLAIMS = {
  'C17': ('model_checking',
    "TLA+ spec Framing (length codecs, Legal(), the crate's partial-writer policy, PacketBodyReader machine with truncating source) model-checked by TLC over every encodable framing of the bound (2-3 partial chunks from exponents {0,8,9,10,13} + boundary final lengths, 8 tags, both header formats, indeterminate, chains without terminator) x supplied-octet counts, codec round trip for all n<=20000 (thorough 70000); TLC emits every framing with its verdict, the writer chunking and the header octets for boundary lengths; the harness frames valid bodies with an independent framer and compares PacketParser / Message results with the canonical framing (sentinel packet must follow), re-serialises every parsed packet and deframes library-written streams independently.",
    'DESIGN.md 5/C17', TECH),
+ 'C03': ('model_checking',
+   "TLA+ specs AeadStream (chunked AEAD stream + the crate's fill/decrypt/decrypt_last decryptor machine, symbolic octets, ideal AEAD) and CfbMdc (Prefix->Data->Done|Error machine with 22-octet hold-back, CheckFirst/Streaming) are model-checked exhaustively at scaled constants over every flip / delete range / insertion / chunk duplicate / swap / final-tag duplicate / header change, with sensitivity runs (no index in nonce, no final tag, no MDC compare => invariant violated), and again at the REAL constants (chunk 64/tag 16; prefix 18/MDC 22/buffer 8192) where TLC emits every (length, manipulation, mode) case; the harness applies each position-exactly to real containers (EAX/OCB/GCM; all 255 other values of every header octet at chunk sizes 64 B and 4 KiB) and drives Message and packet::StreamDecryptor with six consumer patterns to the first error/EOF.",
+   'DESIGN.md 5/C03', TECH),
 }
 checks = []
 for p in props:
